@@ -299,6 +299,12 @@ def rule_panic_ledger(ctx):
                 row = same_file[0]
             elif len(cands) == 1:
                 row = cands[0]
+        if row is None and kind.startswith("panic:"):
+            # a deliberate diagnostic moved between functions of one file (a `-> !` helper inlined into its caller, or
+            # extracted from it): a *diagnostic* row of the same file and kind takes it; its message is still checked
+            spare_d = [i for i, (lrel, lfn, lkind, n, cls, arg) in enumerate(LEDGER) if lrel == rel and lkind == kind and cls == D]
+            if spare_d:
+                row = spare_d[0]
         if row is None and not kind.startswith("panic:"):
             # code moved between functions of one file (a helper became a method of the type whose fields it indexes):
             # an *audited* row of the same file and kind whose budget is not used up takes it; the file-level total
